@@ -308,7 +308,7 @@ func VerifC17NodesWindow(n, ne int) {
 		if !outbound {
 			from, to = e.end, e.start
 		}
-		if reach[from] {
+		if reach[from] || from == root {
 			arrivals[to]++
 		}
 	}
